@@ -235,13 +235,13 @@ def check(ctx):
     # counts (an exit test on a local that the body moves by +/-), or is one of the reviewed loops below.  `while !set.insert(name) { name = f(k) }`
     # with a `k` that the body does not move has none of these: for the inputs that enter it, it never ends.
     LOOP_REVIEWED = {
-        "SerdeParser::parse_rename": "`search_start = abs_pos + 6` strictly advances the search offset; the loop ends when find() answers None (dead helper, kept for its tests)",
         "ProjectScanner::detect_project": "walks `current = parent` up a finite path until parent() is None",
     }
     from rulelib import loop_exits as _le
     r4 = Rule("C15-LOOPS-progress", "termination",
-              "every natural loop of the crate's own reachable code is driven by an iterator/queue, has an exit test on a counter the body moves, or is a "
-              "reviewed single-site exemption",
+              "every natural loop of the crate's own reachable code has a progress candidate: it is driven by an iterator/queue, has an exit test on a counter "
+              "the body moves or on a search over a window the body advances, replaces its variable by a part of the variable's own value, or is a reviewed "
+              "single-site exemption (a necessary condition of termination, not a proof of it)",
               "a loop with none of these does not terminate for the inputs that enter it: generation hangs instead of failing")
     DRV = ("next", "pop", "pop_front", "pop_back", "next_back", "recv", "read_line", "read", "next_key", "next_element", "next_entry", "next_value")
     for fid in sorted(reach):
@@ -303,8 +303,12 @@ def check(ctx):
                 if L_ in part:
                     descends = True
                     break
+            # a search loop: an exit test on the answer of a search (`find`/`rfind`/`position`/`get` = None) over a window whose offset the body moves
+            searching = bool(moved) and any(re.search(r"\b(find|rfind|position|rposition|get|find_map|split_once)\(", e_[2]) for e_ in exits)
             if counted:
                 r4.ok("%s: counting loop" % key)
+            elif searching:
+                r4.ok("%s: search loop with an offset the body advances" % key)
             elif descends:
                 r4.ok("%s: structural descent (the loop variable is replaced by a part of its own value)" % key)
             elif key in LOOP_REVIEWED:
@@ -335,8 +339,10 @@ def check(ctx):
     return finish(
         PROP, ctx, rules,
         "Enumeration of every panic-capable MIR terminator/call reachable from the entry points with symbolic (linear-form) index "
-        "provenance, dominating-guard lookup and a reviewed exemption table; isolation of parse failures by error-flow on syn::parse_file.",
-        ["termination / stack depth on adversarially deep types",
+        "provenance, dominating-guard lookup and a reviewed exemption table; isolation of parse failures by error-flow on syn::parse_file; "
+        "a progress candidate for every natural loop.",
+        ["termination proper: loops are only shown to have a progress candidate (iterator/queue, moved counter, advanced search window, structural descent), "
+         "recursion depth on adversarially deep types is not bounded",
          "panics inside syn, tera, serde_json, walkdir, clap, indicatif, chrono themselves (trusted total on their documented domains)",
          "allocation failure"],
         ["string lengths are below isize::MAX (Rust allocation invariant), type strings below 2^31 bytes",
